@@ -1,22 +1,467 @@
 package main
 
 import (
+	"fmt"
+	"go/token"
+	"sort"
+	"strings"
+
 	"golang.org/x/tools/go/ssa"
 )
 
-// Thread mode (cooperative threads, context switches at synchronisation
-// operations, lockset logging). Filled in by threads_impl.go when built.
+// Thread mode: cooperative threads over the same symbolic state. Context switches are offered before every
+// acquiring / possibly blocking synchronisation operation (Lock, RLock, channel send / receive / select,
+// WaitGroup.Wait) and when the running thread blocks or ends; the scheduler's choice forks the state like any
+// other decision, bounded by a preemption budget. On every explored schedule a vector-clock happens-before
+// relation (fork, lock release->acquire with separate reader / writer clocks, channel, WaitGroup) is maintained
+// and every heap access is checked against it: two conflicting accesses unordered by happens-before are a data
+// race whatever the order they were executed in. sync.RWMutex has Go's writer preference (a waiting writer blocks
+// new readers). No runnable thread while some thread is not finished is a deadlock.
 
-type raceLog struct{}
+type threadYield struct{}
 
-func (e *Engine) schedule(st *State) bool { panic(engineErr("thread mode not available")) }
+type accEntry struct {
+	tid   int
+	path  string
+	write bool
+	clk   int
+	site  string
+}
+
+type waitCh struct {
+	obj  int
+	send bool
+}
+
+type threadState struct {
+	sw       bool // a switch point is pending
+	preempts int
+	ticks    int // remaining timer firings
+	lockW    map[lockID][]int
+	lockR    map[lockID][]int
+	chanVC   map[int][]int
+	wg       map[lockID]int
+	wgVC     map[lockID][]int
+	acc      map[int][]accEntry
+	nolog    bool
+}
+
+func (t *threadState) clone() *threadState {
+	n := *t
+	n.lockW = make(map[lockID][]int, len(t.lockW))
+	for k, v := range t.lockW {
+		n.lockW[k] = v
+	}
+	n.lockR = make(map[lockID][]int, len(t.lockR))
+	for k, v := range t.lockR {
+		n.lockR[k] = v
+	}
+	n.chanVC = make(map[int][]int, len(t.chanVC))
+	for k, v := range t.chanVC {
+		n.chanVC[k] = v
+	}
+	n.wg = make(map[lockID]int, len(t.wg))
+	for k, v := range t.wg {
+		n.wg[k] = v
+	}
+	n.wgVC = make(map[lockID][]int, len(t.wgVC))
+	for k, v := range t.wgVC {
+		n.wgVC[k] = v
+	}
+	n.acc = make(map[int][]accEntry, len(t.acc))
+	for k, v := range t.acc {
+		n.acc[k] = v
+	}
+	return &n
+}
+
+func vcGet(v []int, i int) int {
+	if i < len(v) {
+		return v[i]
+	}
+	return 0
+}
+
+func vcJoin(a, b []int) []int {
+	n := len(a)
+	if len(b) > n {
+		n = len(b)
+	}
+	r := make([]int, n)
+	for i := range r {
+		r[i] = vcGet(a, i)
+		if x := vcGet(b, i); x > r[i] {
+			r[i] = x
+		}
+	}
+	return r
+}
+
+func (th *Thread) tick() {
+	v := vcJoin(th.vc, nil)
+	for len(v) <= th.id {
+		v = append(v, 0)
+	}
+	v[th.id]++
+	th.vc = v
+}
+
+func (e *Engine) tm(st *State) *threadState {
+	if st.tm == nil {
+		ticks := 1
+		if e.cfg.Ticks > 0 {
+			ticks = e.cfg.Ticks
+		}
+		st.tm = &threadState{ticks: ticks, lockW: map[lockID][]int{}, lockR: map[lockID][]int{}, chanVC: map[int][]int{},
+			wg: map[lockID]int{}, wgVC: map[lockID][]int{}, acc: map[int][]accEntry{}}
+		st.threads[0].tick()
+	}
+	return st.tm
+}
+
+func (e *Engine) preemptBound() int {
+	if e.cfg.Preempt > 0 {
+		return e.cfg.Preempt
+	}
+	if e.cfg.Preempt < 0 {
+		return 0
+	}
+	return 2
+}
+
+// runnable: the thread can make progress if scheduled now.
+func (e *Engine) runnable(st *State, th *Thread) bool {
+	if th.done || len(th.frames) == 0 {
+		return false
+	}
+	if th.blocked == "" {
+		return true
+	}
+	switch th.waitMode {
+	case 1, 2:
+		return e.lockFree(st, th, th.waitLock, th.waitMode)
+	case 3:
+		return e.tm(st).wg[th.waitLock] <= 0
+	case 4:
+		for _, w := range th.waitChans {
+			if e.chanReady(st, w) {
+				return true
+			}
+		}
+		return false
+	}
+	return true
+}
+
+func (e *Engine) chanReady(st *State, w waitCh) bool {
+	if w.obj == 0 {
+		return false
+	}
+	o := st.obj(w.obj)
+	if w.send {
+		return len(o.q) < o.qcap || o.closed
+	}
+	return len(o.q) > 0 || o.closed || (o.timer && e.tm(st).ticks > 0)
+}
+
+// lockFree: mode 1 read, 2 write. Go's RWMutex: a waiting writer blocks new readers.
+func (e *Engine) lockFree(st *State, th *Thread, k lockID, mode int) bool {
+	cur := st.lockState(k)
+	if mode == 2 {
+		return cur == 0
+	}
+	if cur < 0 {
+		return false
+	}
+	for _, o := range st.threads {
+		if o != th && !o.done && o.blocked != "" && o.waitMode == 2 && o.waitLock == k {
+			return false
+		}
+	}
+	return true
+}
+
+func (e *Engine) schedule(st *State) bool {
+	tm := e.tm(st)
+	cur := st.threads[st.cur]
+	curRun := e.runnable(st, cur)
+	if !tm.sw && curRun {
+		return true
+	}
+	var cand []int
+	for i, t := range st.threads {
+		if e.runnable(st, t) {
+			cand = append(cand, i)
+		}
+	}
+	if len(cand) == 0 {
+		var stuck []string
+		first := -1
+		for i, t := range st.threads {
+			if !t.done && len(t.frames) > 0 {
+				if first < 0 {
+					first = i
+				}
+				fr := t.top()
+				pos := token.NoPos
+				if fr.ip < len(fr.block.Instrs) {
+					pos = fr.block.Instrs[fr.ip].Pos()
+				}
+				if !pos.IsValid() && len(t.frames) >= 2 { // inside a stubbed callee: use the call site
+					cf := t.frames[len(t.frames)-2]
+					pos = cf.block.Instrs[cf.ip].Pos()
+				}
+				stuck = append(stuck, fmt.Sprintf("%s in %s [%s]", t.blocked, shortFn(fr.fn.String()), e.srcLine(pos)))
+			}
+		}
+		if first < 0 {
+			return false // every thread finished
+		}
+		sort.Strings(stuck)
+		st.cur = first
+		fr := st.threads[first].top()
+		pos := token.NoPos
+		if fr.ip < len(fr.block.Instrs) {
+			pos = fr.block.Instrs[fr.ip].Pos()
+		}
+		e.oblig++
+		e.report(st, "deadlock", fr.fn.String(), strings.Join(stuck, " ; "), pos, e.tb.tt, "sat")
+		return false
+	}
+	if curRun && tm.preempts >= e.preemptBound() {
+		cand = []int{st.cur}
+	}
+	st.choiceSeq = 0
+	k := cand[e.choose(st, len(cand), "sched")]
+	if curRun && k != st.cur {
+		tm.preempts++
+	}
+	tm.sw = false
+	st.cur = k
+	st.threads[k].blocked = ""
+	return true
+}
+
+func shortFn(s string) string { return strings.ReplaceAll(s, modPath, "packet") }
+
 func (e *Engine) spawn(st *State, fv FuncV, args []Val) {
-	panic(engineErr("thread mode not available"))
+	e.tm(st)
+	parent := st.threads[st.cur]
+	th := &Thread{id: len(st.threads), name: fv.Fn.Name()}
+	th.vc = vcJoin(parent.vc, nil)
+	th.tick()
+	parent.tick()
+	st.threads = append(st.threads, th)
+	saved := st.cur
+	e.pushFrame(st, th, fv.Fn, args, fv.Bind, nil)
+	st.cur = saved
 }
+
+// offer: first visit of a switch-point instruction: let the scheduler choose, the instruction is re-executed.
+func (e *Engine) offer(st *State, th *Thread) {
+	if len(st.threads) == 1 {
+		return
+	}
+	if !th.atSwitch {
+		th.atSwitch = true
+		e.tm(st).sw = true
+		panic(threadYield{})
+	}
+}
+
 func (e *Engine) threadBlock(st *State, th *Thread, why string) {
-	panic(engineErr("thread mode not available"))
+	th.blocked = why
+	th.atSwitch = true
+	e.tm(st).sw = true
+	panic(threadYield{})
 }
+
 func (e *Engine) threadIntrinsic(st *State, th *Thread, name string, fn *ssa.Function, args []Val) (Val, bool) {
+	tm := e.tm(st)
+	switch name {
+	case "(*sync.Mutex).Lock", "(*sync.RWMutex).Lock":
+		e.acquire(st, th, fn, args, 2)
+		return nil, true
+	case "(*sync.RWMutex).RLock":
+		e.acquire(st, th, fn, args, 1)
+		return nil, true
+	case "(*sync.Mutex).Unlock", "(*sync.RWMutex).Unlock":
+		e.release(st, th, fn, args, 2)
+		return nil, true
+	case "(*sync.RWMutex).RUnlock":
+		e.release(st, th, fn, args, 1)
+		return nil, true
+	case "(*sync.WaitGroup).Add":
+		k := lockKey(args[0].(PtrV))
+		d := args[1].(IntV).T
+		if !d.IsConst() {
+			panic(engineErr("symbolic WaitGroup.Add"))
+		}
+		tm.wg[k] += int(int64(d.C))
+		return nil, true
+	case "(*sync.WaitGroup).Done":
+		k := lockKey(args[0].(PtrV))
+		tm.wg[k]--
+		tm.wgVC[k] = vcJoin(tm.wgVC[k], th.vc)
+		th.tick()
+		return nil, true
+	case "(*sync.WaitGroup).Wait":
+		k := lockKey(args[0].(PtrV))
+		e.offer(st, th)
+		if tm.wg[k] > 0 {
+			th.waitMode, th.waitLock = 3, k
+			e.threadBlock(st, th, "WaitGroup.Wait")
+		}
+		th.atSwitch = false
+		th.vc = vcJoin(th.vc, tm.wgVC[k])
+		return nil, true
+	case "runtime.Gosched":
+		return nil, true
+	}
+	if strings.HasPrefix(name, "sync/atomic.") || strings.HasPrefix(name, "(*sync/atomic.") {
+		if f, ok := intrinsicTab[name]; ok {
+			tm.nolog = true
+			defer func() { tm.nolog = false }()
+			return f(e, st, th, fn, args), true
+		}
+	}
 	return nil, false
 }
-func (e *Engine) logAccess(st *State, p PtrV, write bool) {}
+
+func (e *Engine) acquire(st *State, th *Thread, fn *ssa.Function, args []Val, mode int) {
+	p := args[0].(PtrV)
+	if p.Obj == 0 {
+		e.oblige(st, e.tb.ff, "nil-dereference", fn.Pos(), "lock of nil mutex")
+	}
+	k := lockKey(p)
+	e.offer(st, th)
+	tm := e.tm(st)
+	if !e.lockFree(st, th, k, mode) {
+		th.waitMode, th.waitLock = mode, k
+		what := "Lock"
+		if mode == 1 {
+			what = "RLock"
+		}
+		e.threadBlock(st, th, what)
+	}
+	th.atSwitch = false
+	cur := st.lockState(k)
+	if mode == 2 {
+		st.setLock(k, -1)
+		th.vc = vcJoin(th.vc, vcJoin(tm.lockW[k], tm.lockR[k]))
+	} else {
+		st.setLock(k, cur+1)
+		th.vc = vcJoin(th.vc, tm.lockW[k])
+	}
+}
+
+func (e *Engine) release(st *State, th *Thread, fn *ssa.Function, args []Val, mode int) {
+	p := args[0].(PtrV)
+	k := lockKey(p)
+	tm := e.tm(st)
+	cur := st.lockState(k)
+	if mode == 2 && cur != -1 || mode == 1 && cur <= 0 {
+		e.oblige(st, e.tb.ff, "unlock-of-unlocked-mutex", fn.Pos(), fn.Name())
+	}
+	if mode == 2 {
+		st.setLock(k, 0)
+		tm.lockW[k] = vcJoin(tm.lockW[k], th.vc)
+	} else {
+		st.setLock(k, cur-1)
+		tm.lockR[k] = vcJoin(tm.lockR[k], th.vc)
+	}
+	th.tick()
+}
+
+// chanSync: happens-before through a channel operation (over-approximated: one clock per channel).
+func (e *Engine) chanSync(st *State, th *Thread, obj int, send bool) {
+	tm := e.tm(st)
+	if send {
+		tm.chanVC[obj] = vcJoin(tm.chanVC[obj], th.vc)
+		th.tick()
+	} else {
+		th.vc = vcJoin(th.vc, tm.chanVC[obj])
+	}
+}
+
+func (e *Engine) logAccess(st *State, p PtrV, write bool) {
+	if st.tm == nil || st.tm.nolog || len(st.threads) == 1 || e.inInit {
+		return
+	}
+	tm := st.tm
+	th := st.threads[st.cur]
+	if len(th.frames) == 0 {
+		return
+	}
+	path := ""
+	if p.Idx == nil {
+		path = fmt.Sprint(p.Path)
+	}
+	ents := tm.acc[p.Obj]
+	site := ""
+	mk := func() string {
+		if site == "" {
+			fr := th.top()
+			pos := token.NoPos
+			if fr.ip < len(fr.block.Instrs) {
+				pos = fr.block.Instrs[fr.ip].Pos()
+			}
+			if !pos.IsValid() {
+				pos = fr.fn.Pos()
+			}
+			site = shortFn(fr.fn.String()) + " [" + e.srcLine(pos) + "]"
+		}
+		return site
+	}
+	mine := -1
+	for i, en := range ents {
+		if en.tid == th.id {
+			if en.path == path && en.write == write {
+				mine = i
+			}
+			continue
+		}
+		if !(write || en.write) || en.clk <= vcGet(th.vc, en.tid) {
+			continue
+		}
+		if !pathOverlap(en.path, path) {
+			continue
+		}
+		a, b := mk(), en.site
+		if b < a {
+			a, b = b, a
+		}
+		e.oblig++
+		fr := th.top()
+		pos := token.NoPos
+		if fr.ip < len(fr.block.Instrs) {
+			pos = fr.block.Instrs[fr.ip].Pos()
+		}
+		e.report(st, "data-race", fr.fn.String(), a+" <-> "+b, pos, e.tb.tt, "sat")
+	}
+	ne := accEntry{tid: th.id, path: path, write: write, clk: vcGet(th.vc, th.id)}
+	if mine >= 0 {
+		if ents[mine].clk == ne.clk {
+			return
+		}
+		ne.site = mk()
+		c := append([]accEntry{}, ents...)
+		c[mine] = ne
+		tm.acc[p.Obj] = c
+		return
+	}
+	ne.site = mk()
+	tm.acc[p.Obj] = append(ents[:len(ents):len(ents)], ne)
+}
+
+// pathOverlap: "[1 2]" style paths: one is a prefix of the other (field / element containment).
+func pathOverlap(a, b string) bool {
+	if a == b {
+		return true
+	}
+	ta, tb := strings.TrimSuffix(a, "]"), strings.TrimSuffix(b, "]")
+	if ta == "[" || tb == "[" {
+		return true
+	}
+	return strings.HasPrefix(tb, ta+" ") || strings.HasPrefix(ta, tb+" ")
+}
